@@ -21,7 +21,10 @@ OPSYM = {"union": "|", "intersection": "&", "difference": "-", "symmetric_differ
 def rand_tree(rng, sigma, depth, names_kind=None):
     """Returns (tree description, nleaves). tree: ('leaf', def) | ('bin', op, how, opts, a, b) | ('compl', how, opts, a)."""
     if depth == 0 or rng.random() < 0.25:
-        return ("leaf", gen.rand_dfa_def(rng, nmax=5, alphabet=sigma))
+        leaf = gen.rand_dfa_def(rng, nmax=5, alphabet=sigma)
+        if rng.random() < 0.15:
+            leaf = gen.add_dfa_stray_rows(rng, leaf)      # rows keyed by -1, -2, ... that belong to no state
+        return ("leaf", leaf)
     opts = dict(retain_names=rng.random() < 0.5, minify=rng.random() < 0.5)
     if rng.random() < 0.2:
         return ("compl", rng.choice(["method", "operator"]), opts, rand_tree(rng, sigma, depth - 1))
@@ -223,6 +226,8 @@ def run(ctx):
             check_conversions(ctx, gen.rand_dfa_with_dead(rng, alphabet=sigma))
             if i % 6 == 0:
                 check_conversions(ctx, gen.rand_dfa_with_dead(rng, alphabet=sigma), mutable=True)
+            if i % 6 == 3:
+                check_conversions(ctx, gen.add_dfa_stray_rows(rng, gen.rand_dfa_def(rng, alphabet=sigma)))
     # two sparse partial operands over three symbols: at most pairs of states the two sets of defined symbols are incomparable
     for _ in range(ctx.n(60, 900)):
         sigma = rng.choice(["abc", "xyz"])
@@ -231,6 +236,25 @@ def run(ctx):
         check_tree(ctx, ("bin", rng.choice(OPS), rng.choice(["method", "operator"]),
                          dict(retain_names=rng.random() < 0.5, minify=rng.random() < 0.5), ("leaf", a), ("leaf", b)),
                    "sparse_partial_pair")
+    # fixed finding (d97d5bb): an unreachable row keyed by -1, the id the product picks for the operand's implicit trap
+    A = dict(states={0, 1, 2, 3}, input_symbols={"a"}, transitions={0: {"a": 1}, 1: {"a": 2}, 2: {"a": 3}, 3: {}},
+             initial_state=0, final_states={3}, allow_partial=True)
+    B = dict(states={0}, input_symbols={"a"}, transitions={0: {}, -1: {"a": 0}}, initial_state=0, final_states={0},
+             allow_partial=True)
+    for op in OPS:
+        for x, y in ((A, B), (B, A)):
+            check_tree(ctx, ("bin", op, "method", dict(retain_names=False, minify=False), ("leaf", x), ("leaf", y)),
+                       "stray_row_at_trap_id")
+    for _ in range(ctx.n(40, 400)):
+        sg = rng.choice(["a", "ab"])
+        x = gen.rand_dfa_def(rng, nmax=4, alphabet=sg, partial=True, density=rng.choice([0.4, 0.7]), p_final=0.5)
+        y = gen.rand_dfa_def(rng, nmax=3, alphabet=sg, partial=True, density=rng.choice([0.4, 0.7]), p_final=0.5)
+        for d in (x, y):
+            if -1 not in d["states"]:
+                d["transitions"][-1] = {a: rng.choice(sorted(d["states"], key=repr)) for a in sg if rng.random() < 0.8}
+        check_tree(ctx, ("bin", rng.choice(OPS), rng.choice(["method", "operator"]),
+                         dict(retain_names=rng.random() < 0.5, minify=rng.random() < 0.5), ("leaf", x), ("leaf", y)),
+                   "stray_row_at_trap_id")
     # every option combination on one pair, every operation
     sigma = "ab"
     for _ in range(ctx.n(6, 60)):
